@@ -162,11 +162,12 @@ def diffs (v : List Rat) : List Rat := tab (v.length - 1) fun j => v.getD (j + 1
 /-- `np.diff(v).mean()` (for at least two values) -/
 def meanDiff (v : List Rat) : Rat := sumR (diffs v) / ((v.length - 1 : Nat) : Rat)
 
-/-- `v.size > 1 and not np.allclose(np.diff(v), np.diff(v).mean())` negated: the coordinate
-passes the spacing test (numpy defaults `rtol=1e-5`, `atol=1e-8`) -/
+/-- `v.size > 1 and not np.allclose(np.diff(v), np.diff(v).mean(), atol=0)` negated: the
+coordinate passes the spacing test — purely relative, numpy's default `rtol=1e-5`, no absolute
+term: `|d - mean| ≤ 1e-5·|mean|` for every spacing `d` -/
 def evenB (v : List Rat) : Bool :=
   decide (v.length ≤ 1) ||
-    allLt (v.length - 1) fun j => Region.isclose ((diffs v).getD j 0) (meanDiff v) (1/100000) (1/100000000)
+    allLt (v.length - 1) fun j => Region.isclose ((diffs v).getD j 0) (meanDiff v) (1/100000) 0
 
 /-- the loop over `dims_list` raising `ValueError` at the first unevenly spaced coordinate -/
 def checkSpacing {α} (xa : XA α) : M Unit :=
@@ -302,6 +303,11 @@ def eraseGeom {α} (c p q : Bool) (xa : XA α) : XA α :=
       cell := if c then none else xa.attrs.cell,
       pmin := if p then none else xa.attrs.pmin,
       pmax := if q then none else xa.attrs.pmax } }
+
+/-- multiply every assigned dimension coordinate by `s` (a change of length unit) -/
+def scaleCoords {α} (s : Rat) (xa : XA α) : XA α :=
+  { xa with axes := xa.axes.map fun ax =>
+      { ax with coord := ax.coord.map fun c => { c with vals := c.vals.map (s * ·) } } }
 
 /-- delete `tolerance_factor` -/
 def eraseTol {α} (xa : XA α) : XA α := { xa with attrs := { xa.attrs with tol := none } }
